@@ -159,8 +159,8 @@ func checkColorRecord(rc recCase, payloads []string, pan string) (clause, detail
 	if !eat(wantTime) {
 		return "layout/timestamp", fmt.Sprintf("record does not start with %q: %.120q", wantTime, head)
 	}
-	if rc.Named && !eat(recLoggerName+" ") {
-		return "layout/logger-name", fmt.Sprintf("logger name %q does not follow the timestamp: %.120q", recLoggerName, head)
+	if rc.Named && !eat(rc.loggerName()+" ") {
+		return "layout/logger-name", fmt.Sprintf("logger name %q does not follow the timestamp: %.120q", rc.loggerName(), head)
 	}
 	w := slog.VerifLevelOutputWidth()
 	if rc.LOW > 0 {
@@ -329,6 +329,7 @@ func c06cases(thorough bool, emit func(rc recCase)) {
 					rc.Layer = "A-sev-width-msg"
 					rc.Level, rc.LOW, rc.MMW, rc.MsgQ = int(sev), low, mmw, qk(m)
 					rc.Named = (mi+low)%2 == 0
+					rc.Caller = (mi+mmw/4)%3 == 0 // the caller is printed for every severity, whatever its ordinal
 					emit(rc)
 				}
 			}
